@@ -43,17 +43,17 @@ theorem first_match_is_max (p : Entry → Bool) (l : List Entry)
       · rw [hpx] at hp'; cases hp'
       · exact ih hs.2 h e' hr hp'
 
+theorem keptEntries_map_some (raw : List Entry) : keptEntries (raw.map some) = raw.filter (·.valid) := by
+  unfold keptEntries
+  induction raw with
+  | nil => rfl
+  | cons e rest ih =>
+    simp only [List.map_cons, List.filterMap_cons, List.filter_cons]
+    cases e.valid <;> simp [ih]
+
 theorem loadEntries_map_some (raw : List Entry) :
     loadEntries (raw.map some) = .ok (((raw.filter (·.valid)).mergeSort geEntry).map some) := by
   unfold loadEntries
-  simp only [List.filter_map, List.any_map, List.filterMap_map]
-  have hany : ∀ (l : List Entry), l.any (Option.isNone ∘ some) = false := by
-    intro l; simp [List.any_eq_false]
-  simp only [hany, Bool.false_eq_true, if_false]
-  have hf : ∀ (p : Entry → Bool), (∀ e, p e = e.valid) → raw.filter p = raw.filter (·.valid) := by
-    intro p hp; apply List.filter_congr; intro x _; exact hp x
-  simp only [Function.comp_def, Option.some.injEq, id]
-  rw [hf _ (fun e => rfl)]
-  simp
+  rw [keptEntries_map_some]
 
 end Helm.Index
